@@ -137,7 +137,7 @@ def tlc_trace(module, trace, out_json, wd, timeout=900):
     """One TLC process folding a trace spec over one trace file (serial GC: many run side by side)."""
     meta = os.path.join(wd, "meta-" + os.path.basename(out_json))
     env = {"TRACE": trace, "OUT": out_json}
-    cmd = ("timeout %d java -XX:+UseSerialGC -Xss512m -Xmx3g -XX:CICompilerCount=2 "
+    cmd = ("timeout %d java -XX:+UseSerialGC -Xss512m -Xmx6g -XX:CICompilerCount=2 "
            "-Dtlc2.tool.queue.IStateQueue=StateDeque -cp %s tlc2.TLC "
            "-workers 1 -metadir %s -cleanup -noGenerateSpecTE -config %s.cfg %s.tla") % (
         timeout, TLA_CP, meta, module, module)
@@ -148,6 +148,13 @@ def tlc_trace(module, trace, out_json, wd, timeout=900):
 def validate_traces(module, traces, wd, timeout=900):
     """Run TLC trace validation (TraceMonitor / TraceStore) on every trace file in parallel.
     Returns list of (trace, result-dict or None, tlc output)."""
+    res = []
+    for lo in range(0, len(traces), 16):
+        res += _validate_batch(module, traces[lo:lo + 16], wd, timeout)
+    return res
+
+
+def _validate_batch(module, traces, wd, timeout):
     procs = []
     for tp in traces:
         oj = tp.replace(".trace.ndjson", ".%s.json" % module)
